@@ -142,7 +142,7 @@ fn compress_delimiter_with_regex<'a>(
     re: &Regex,
     new_delimiter: &[u8],
 ) -> std::borrow::Cow<'a, [u8]> {
-    re.replace_all(line, new_delimiter)
+    re.replace_all(line, regex::bytes::NoExpand(new_delimiter))
 }
 
 #[cfg(feature = "regex")]
@@ -151,7 +151,9 @@ fn maybe_replace_delimiter<'a>(text: &'a [u8], opt: &Opt) -> std::borrow::Cow<'a
         std::borrow::Cow::Borrowed(text)
     } else if let Some(new_delimiter) = opt.replace_delimiter.as_ref() {
         if let Some(re_bag) = &opt.regex_bag {
-            re_bag.normal.replace_all(text, new_delimiter)
+            re_bag
+                .normal
+                .replace_all(text, regex::bytes::NoExpand(new_delimiter))
         } else {
             std::borrow::Cow::Owned(text.replace(&opt.delimiter, new_delimiter))
         }
